@@ -27,6 +27,9 @@ BINARY = {"s0": "under SPLIT/LOOP the condition is checked binary by the executo
 DOC_DISCREPANCY = {
     ("block-hash", "End", "a"): "docs write bh with the current-row block address a; the row was inserted with the parent id (a' at the start row of the parent), "
                                  "and at the child's END row the parent id is a' (block stack section of the same document): a is replaced by a'",
+    ("block-hash", "Call", "row"): "docs do not list CALL/SYSCALL among the operations that update the block hash table, but the END of the callee's root removes the row (call block id, callee hash, "
+                                    "is_first_child = 0 because the call block's own END follows, is_loop_body = 0): the inserted row must be ch_1 = alpha0 + alpha1*a' + sum alpha_{i+2}*h_i "
+                                    "(h0..h3 of the CALL/SYSCALL row hold the callee hash)",
     ("block-hash", "End", "Halt"): "docs list END and REPEAT as followers that clear the is_first_child term; the boundary paragraph of the same section fixes the program row as (0, hash, 0, 0), "
                                     "so a following HALT must clear it as well",
 }
@@ -167,13 +170,15 @@ def r4a_decoder_tables(ctx, F):
     for op, oc in sorted(T.items(), key=lambda kv: kv[1]):
         res, fn = table_eval(A, F, "BlockHashTableColumnBuilder", "v", oc)
         key = "block-hash|v|%s" % op
-        ctx.inst(key=key, nontrivial=op in docv)
+        ctx.inst(key=key, nontrivial=op in docv or op in ("Call", "SysCall"))
         for guards, val in res:
             if isinstance(val, Exception):
                 ctx.violation("UNANALYSABLE|%s" % key, fn.loc(), str(val)[:300])
                 continue
             sub, rest = guard_subst(guards)
             want = subst(D.eval(docv[op], {"fX" + op.lower(): 1}), sub) if op in docv else one()
+            if op in ("Call", "SysCall"):
+                want = D.eval("chXa", {})       # DOC_DISCREPANCY (block-hash, Call, row)
             if op == "Loop" and sub.get("s0") == 0:
                 want = one()        # v_loop evaluates to 0 in the docs' sum form, i.e. the factor is 1: nothing is added
             ok = isinstance(val, Poly) and subst(val, sub) == want
@@ -547,6 +552,16 @@ def r1_requesters(ctx, F):
             ctx.violation("no-bus-request|%s" % op, F.fns[fid].loc(), "%s makes a chiplet record rows (%s) but BusColumnBuilder::get_requests_at has no request for it: the chiplets bus cannot balance for any program using it" % (op, sorted(makes)))
         elif nt and not makes:
             ctx.violation("spurious-bus-request|%s" % op, F.fns[fid].loc(), "%s has a bus request but its handler makes no chiplet record a row" % op)
+    # requests are computed from the decoder / stack / system columns of rows i and i+1; a chiplet column read at a row offset
+    # relative to the *decoder* row mixes two row domains (chiplet rows are addressed by hasher/memory addresses)
+    for op, oc in sorted(T.items(), key=lambda kv: kv[1]):
+        A.eval(fid, oc, max_paths=2048)
+        bad = sorted((A.names.get(c, c), r) for c, r in A.touched if isinstance(c, int) and c >= A.CHP and r != "sym")
+        ctx.inst(key="request-columns|%s" % op, nontrivial=bool(info.get(op, (None, False))[1]))
+        ctx.oblig(not bad)
+        if bad:
+            ctx.violation("request-reads-chiplet-rows|%s" % op, F.fns[fid].loc(), "the bus request of %s reads chiplet columns at rows relative to the decoder row (%s): chiplet rows are not aligned with decoder rows, so the request matches the chiplet's response only by coincidence"
+                          % (op, ["%s@i%+d" % (n, r) for n, r in bad][:6]))
     ctx.sample({"requesters": sorted(op for op, (m, nt) in info.items() if nt)})
     ctx.floor("requesters", sum(1 for m, nt in info.values() if nt), 19)
     return info
